@@ -23,7 +23,12 @@ MANIFEST = dict(
           "a bare number). Two further discrete axes are walked over the whole catalogue: ALIASING (the same array object in two argument "
           "positions, operand/operand and out=/operand, incl. products of 3-4 operands in different units such as einsum('i,ij,j->', x, A, x)) "
           "and the SPELLING OF OPTION ARGUMENTS (every flag as bool / np.bool_ / 0-1, truthy and falsy; every int / float option as "
-          "np.int64 / np.float64). Bounded: template catalogue, shapes <= (2,3)."),
+          "np.int64 / np.float64). COMPOUND OPERAND UNITS (family uform): calls with operands in two unit groups re-run with the units being "
+          "compound expressions over two length units that are re-expressed independently (1/xg next to xa, xe/xa**3 next to xg**3, "
+          "xg**2, 1/xa), so that the product of the operand units cancels a dimension and leaves a pure number != 1 that differs between the "
+          "two unit systems; single-operand calls re-run on a density- / wavenumber-like unit (concrete dyadic length scales, every element "
+          "and the other scales symbolic). HISTORY (family rereg): the same call is made first on another dataset - another registry in "
+          "which the same unit names have other scales - before the two compared runs. Bounded: template catalogue, shapes <= (2,3)."),
     design="DESIGN.md section 4 C07",
     technique="metamorphic symbolic execution of the real Python code over z3 real terms (unit re-expression); SMT (QF_NRA/UF) obligations per path; counterexample replay")
 EXPLANATION = (
@@ -56,7 +61,20 @@ EXPLANATION = (
     "the integer 0-1 (resp. np.int64 / np.float64), in positional and keyword position alike; NumPy reads these by truth value / "
     "operator.index, so the call is the same call; C07-only templates add the explicit falsy flags (density=False, retstep=False, "
     "return_indices=False, returned=False ...) so that 0 / np.False_ are walked too. The positions are found by a dry run of the "
-    "template on float placeholders with a recording argument factory and numpy namespace.")
+    "template on float placeholders with a recording argument factory and numpy namespace. "
+    "Compound operand units (family `uform/<form>`): the unit of an operand is an expression over registry units. Two-operand forms (every "
+    "template with operands in L and in a second group T or L2, Tier-2 kernels included): inv-other (xa with 1/xg: km with 1/m), density "
+    "(xe/xa**3 with xg**3: g/cm**3 with m**3), square-other (xa with xg**2), inv-same (xa with 1/xa), rate (xa/xc with xc). The two length "
+    "units xa->xb and xg->xh are re-expressed by DIFFERENT factors (16 and 4; a density and a volume are inputs of different dimensions), so "
+    "the pure number a cancellation leaves (xa/xg = 1/8, xb/xh = 1/32) differs between the runs and a handler that drops it, or that "
+    "relabels instead of rescaling, is not covariant. Single-operand forms (templates whose only unit group is L): density1 (xe/xa**3), "
+    "inv1 (1/xa) - powers, roots and reciprocals of a compound unit. Length scales are concrete dyadic numbers (cancellation writes them into "
+    "a sympy expression), elements, bare numbers and the scales of the other dimensions are symbols; the re-expression factor of a group "
+    "follows from its expression (1/k, k**3, k_M/k**3) and is what the Tier-2 homogeneity instances are stated in; dimension oracle rewritten. "
+    "History (family `rereg`): before the two compared runs the same template is executed in both unit systems on ANOTHER registry in which "
+    "the same unit names have other scales (numerals; the scales of the case proper are symbols), with no library reset in between: a memo "
+    "keyed by the spelling of a unit (or by anything that does not determine its scale and registry) hands the case a unit of the other "
+    "dataset. Same obligations as the base case, decided for all values.")
 BOUNDS = {
     "quick": "the `quick` subset of the template catalogue, shapes (), (2,), (3,), (2,2), (2,3); groups length/time/temperature; plus the "
              "mixed-unit family (both tiers): 48 merging/validating calls (concatenate, stack family, block, append, where, select, choose, "
@@ -70,13 +88,19 @@ BOUNDS = {
              "plus (both tiers) 22 C07-only templates (3-4 operand products, explicit falsy flags) and the families alias (every pair of "
              "equally shaped array arguments of every quick template, one pair aliased per case; not sweep/, round/, *mixdim), flag-npbool "
              "and flag-int (every quick template with a bool argument), arg-npscalar (quick: templates of functions that have a unyt handler, "
-             "without rank/ and round/)",
+             "without rank/ and round/); family uform: every quick template with operands in L and a second group x (inv-other, density, "
+             "square-other) [Tier-2: first call form per function], and form density1 on the first call form of every function with a unyt "
+             "handler whose only unit group is L; family rereg: the first call form of every function / method / operator of the quick "
+             "catalogue. Neither family re-runs templates whose base case shows a recorded (known) defect, nor the sweeps",
     "thorough": "the full template catalogue: positional / keyword / out= variants, equal and ragged extents, two different units of one "
                 "dimension inside one call (coherent factor), plus a shape x axis sweep of 25 single-operand functions over (), (1,), (0,), (2,3), "
                 "(3,2), (1,2), (2,2,2); sorting-type functions with axis=None only up to 3 elements; family `dimless` over the full "
                 "catalogue except the shape sweep sweep/* and the thorough-only part of the operand-rank sweep rank/* (they vary shape "
                 "and rank of the same calls, not the unit handling); families alias / flag-npbool / flag-int over the full catalogue "
-                "(alias without sweep/, round/, *mixdim), arg-npscalar over the full catalogue without sweep/, rank/, round/",
+                "(alias without sweep/, round/, *mixdim), arg-npscalar over the full catalogue without sweep/, rank/, round/; uform: all five "
+                "two-operand forms over every template with two unit groups, density1 over every single-group template, inv1 over the first "
+                "call form per handled function; rereg: every call form of the functions with a unyt handler, first call form of the others "
+                "(both without sweep/, rank/, round/ and without templates of recorded defects)",
 }
 OUTSIDE = ("IEEE rounding (bit-for-bit covariance under power-of-two rescaling is not claimed: A1); integer/complex payloads; offset units "
            "(C08); bare numbers standing for dimensional arguments are rescaled with their group (they denote a quantity in the unit of "
@@ -94,7 +118,11 @@ OUTSIDE = ("IEEE rounding (bit-for-bit covariance under power-of-two rescaling i
            "level of a call made through the numpy namespace (not inside tuples / lists, not arguments of ndarray METHODS), the mixed-unit "
            "and scaled-dimensionless families are not re-run under either axis; a call that raises in both unit systems is accepted also when "
            "only the spelling made it raise (the property allows refusal); np.unique(axis=) (NumPy refuses the object payload: see "
-           "coverage `numpy_refuses_object_payload`)")
+           "coverage `numpy_refuses_object_payload`); compound units: length scales concrete (16/64, 1/64, 2, 1/2), five two-operand and two "
+           "single-operand expression forms, not combined with the aliasing / spelling / dimensionless axes; history: one earlier call of "
+           "the SAME template on one other registry (other functions as the earlier call only through the sampled warm variants of "
+           "symx.warm); a registry edited in place between the calls (modify/add/remove) belongs to C12 and is not walked here; templates "
+           "whose base case shows a recorded defect are not re-run under uform / rereg")
 CONFORM = {"quick": 40, "thorough": 120}
 
 
@@ -213,17 +241,212 @@ def group_dims_dimless(ctx, spec):
     return d
 
 
-def make_case(t, dimless=False):
-    """dimless: False | "sym" (scaled dimensionless units of symbolic scale in the groups L / L2) | "conc" (concrete dyadic scales)"""
+# ---------------------------------------------------------------------------------------------- compound operand units
+# The unit of an operand need not be an atomic symbol: densities (g/cm**3), wavenumbers (1/m), areas (m**2). When the units of two
+# operands of one call contain the SAME base dimension at DIFFERENT scales - with opposite signs of the exponent (g/cm**3 with m**3,
+# km with 1/m: the product cancels the dimension and leaves a pure number != 1) or with the same sign (cm with m**2) - a handler that
+# computes the result unit through simplification / cancellation must carry that number into the data. Family `uform`: every
+# template with operands in two unit groups is re-run with the units of the groups replaced by compound expressions over the
+# registry units (UFORMS); the re-expression factor of a group follows from the expression (1/k for a reciprocal, k**3 for a cube).
+# Cancelling same-dimension units puts their scales into a sympy expression, which cannot hold a z3 term (HARNESS_GUIDE): the
+# length units of this family have concrete dyadic scales (CONCRETE_K = 16 is exact in binary floating point, as the property's
+# quantifier asks); every array element, bare number and the scales of the other dimensions stay symbolic.
+# The two length units are re-expressed INDEPENDENTLY (xa -> xb by 16, xg -> xh by 4): "re-expressing all inputs of a given dimension"
+# treats a density and a volume as inputs of different dimensions (g/cm**3 -> kg/m**3 while the m**3 stay), and only then does the pure
+# number left by a cancellation (xa/xg = 1/8, xb/xh = 1/32) differ between the two runs
+UF_SCALE_B = {"L": 1.0 / 64, "L2": 1.0 / 2}
+UF_K = {"L": 16.0, "L2": 4.0}
+# form -> {role: (unit expression over the unit names of the run, {k-group: exponent of the re-expression factor}, {dimension: exponent})}
+# role "first" = the group L, role "second" = the other group of the template (T if it has one, else L2)
+UFORMS = {
+    "inv-other": {"second": ("1/{L2}", {"L2": -1}, {"length": -1})},                                  # km with 1/m
+    "density": {"first": ("{M}/{L}**3", {"M": 1, "L": -3}, {"mass": 1, "length": -3}),              # g/cm**3 with m**3
+                "second": ("{L2}**3", {"L2": 3}, {"length": 3})},
+    "inv-same": {"second": ("1/{L}", {"L": -1}, {"length": -1})},                                    # N with 1/N: cancels to exactly 1
+    "square-other": {"second": ("{L2}**2", {"L2": 2}, {"length": 2})},                                # cm with m**2: same sign, no cancellation
+    "rate": {"first": ("{L}/{T}", {"L": 1, "T": -1}, {"length": 1, "time": -1}),                    # m/s with s, km/h-like with another time unit
+             "second": ("{T}", {"T": 1}, {"time": 1})},
+}
+UFORMS_QUICK = ("inv-other", "density", "square-other")
+# forms for calls with operands of ONE unit group: the operand itself carries a compound unit (a density, a wavenumber); a handler that
+# builds a power, a root or a reciprocal of the operand's unit (prod, var, det, inv, cumprod ...) must do so for the whole expression
+UFORMS_SINGLE = {
+    "density1": {"first": ("{M}/{L}**3", {"M": 1, "L": -3}, {"mass": 1, "length": -3})},
+    "inv1": {"first": ("1/{L}", {"L": -1}, {"length": -1})},
+}
+UFORMS.update(UFORMS_SINGLE)
+
+
+def _form_of(t, uform):
+    second = "T" if "T" in t.groups else "L2"
+    roles = {"first": "L", "second": second}
+    return {roles[r]: ent for r, ent in UFORMS[uform].items()}
+
+
+def _ipow(b, e):
+    r = b
+    for _ in range(abs(e) - 1):
+        r = r * b
+    return r if e > 0 else 1.0 / r
+
+
+def make_registry_uform(ctx, groups, form):
+    D = ctx.mods["unyt"].dimensions
+    need = set()
+    for ent in form.values():
+        need |= {g for g in ("L", "L2", "T", "M") if "{" + g + "}" in ent[0]}
+    sym = [g for g in dict.fromkeys(tuple(groups) + tuple(sorted(need))) if g not in ("L", "L2", "1", "bare") and (g in need or g not in form)]
+    reg = make_registry(ctx, sym, both=True)
+    for g in ("L", "L2"):
+        ctx.add_row(reg, UNITS["A"][g], D.length, UF_K[g] * UF_SCALE_B[g])
+        ctx.add_row(reg, UNITS["B"][g], D.length, UF_SCALE_B[g])
+    return reg
+
+
+class FormEnv(Env):
+    """Env in which the operands of the groups in `form` carry a compound unit; the length units have concrete dyadic scales"""
+
+    def __init__(self, *a, form=None, **k):
+        super().__init__(*a, **k)
+        self.form = form or {}
+
+    def _k(self, kg):
+        return UF_K[kg] if kg in UF_K else self.ctx.real("k_" + kg, pos=True)
+
+    def factor(self, group):
+        if self.run != "B" or group in ("1", "bare", None):
+            return None
+        ent = self.form.get(group)
+        if ent is None:
+            return self._k(group)
+        f = None
+        for kg, e in ent[1].items():
+            x = _ipow(self._k(kg), e)
+            f = x if f is None else f * x
+        return f
+
+    def _expr(self, group):
+        return self.form[group][0].format(**UNITS[self.run])
+
+    def unit(self, group):
+        if group in self.form:
+            return self.ctx.mods["unyt"].Unit(self._expr(group), registry=self.reg)
+        return super().unit(group)
+
+    def _wrap(self, x, group):
+        if group in self.form and self.mode != "bare":
+            return self.ctx.quantity(x, self._expr(group), self.reg)
+        return super()._wrap(x, group)
+
+
+def group_dims_uform(ctx, spec, form):
+    D = ctx.mods["unyt"].dimensions
+    d = D.dimensionless
+    for g, e in spec.items():
+        if g in form:
+            for dn, de in form[g][2].items():
+                d = d * getattr(D, dn) ** (de * e)
+        else:
+            d = d * getattr(D, GROUP_DIMS[g]) ** e
+    return d
+
+
+def _recorded(templates):
+    """templates without those whose base case shows a recorded (`known`) defect of unyt: the defect is listed once, under the base
+    case; re-running it under a further axis would only repeat it (symx.warm treats such cases the same way)"""
+    import fnmatch
+    import json
+    import os
+    try:
+        with open(os.path.join(os.path.dirname(os.path.dirname(os.path.abspath(__file__))), "known_findings.json")) as f:
+            ks = json.load(f)
+    except Exception:  # noqa: BLE001
+        ks = []
+    ks = ks if isinstance(ks, list) else ks.get("findings", [])
+    pats = [k["pattern"].split("::", 1)[0] for k in ks if k.get("property") == "C07" and k.get("status") == "known"]
+    return [t for t in templates if not any(fnmatch.fnmatchcase(f"C07/{t.name}", p) for p in pats)]
+
+
+def uform_templates(templates, tier, mods):
+    """(a) templates with operands in the group L and in a second group (T or L2) x the two-operand forms; (b) templates whose only unit
+    group is L x the single-operand forms (quick: density1 on the first call form of every function that has a unyt handler). Not the
+    sweeps (they vary shape and rank of the same calls). Tier-2 kernels get their homogeneity axioms in the factors of the form"""
+    out, seen = [], set()
+    handled = set(handler_coverage(mods)[0])
+    for t in _recorded(templates):
+        if "L" not in t.groups or t.name.startswith(("sweep/", "rank/", "round/")):
+            continue
+        if "T" in t.groups or "L2" in t.groups:
+            if tier == "quick" and t.tier == 2 and t.key in seen:
+                continue
+            seen.add(t.key)
+            if "T" not in t.groups and t.dim is not None:
+                # the catalogue's dimension oracle counts operands of L and L2 alike as `L` (one dimension): once the two groups carry
+                # different expressions it cannot be rewritten; covariance alone is decided for these templates
+                t = _derive(t, t.name, t.fn, dim=None)
+            for f in (UFORMS_QUICK if tier == "quick" else tuple(f for f in UFORMS if f not in UFORMS_SINGLE)):
+                if f == "rate" and "T" not in t.groups:
+                    continue
+                out.append((t, f))
+        elif all(g in ("L", "1", "bare") for g in t.groups):
+            first = t.key in handled and t.key not in seen
+            seen.add(t.key)
+            if tier == "quick":
+                if first:
+                    out.append((t, "density1"))
+            else:
+                out.append((t, "density1"))
+                if first:
+                    out.append((t, "inv1"))
+    return out
+
+
+def history_templates(templates, tier, mods):
+    """quick: one call form (the first) of every function, ndarray method and operator of the catalogue (with or without a unyt handler:
+    the ufunc route has its own unit-rule memo); thorough: in addition every call form of the functions that have a unyt handler"""
+    ts = [t for t in _recorded(templates) if not t.name.startswith(("sweep/", "rank/", "round/"))]
+    handled = set(handler_coverage(mods)[0]) if tier != "quick" else set()
+    seen, out = set(), []
+    for t in ts:
+        if t.key not in seen or t.key in handled:
+            seen.add(t.key)
+            out.append(t)
+    return out
+
+
+def make_case(t, dimless=False, uform=None, history=False):
+    """dimless: False | "sym" (scaled dimensionless units of symbolic scale in the groups L / L2) | "conc" (concrete dyadic scales);
+    uform: name of a compound-unit form (UFORMS) given to the operands of the form's groups; history: the same call is made first
+    on another dataset (another registry in which the same unit names have other scales)"""
     dims_of = group_dims_dimless if dimless else group_dims
     EnvOf = ConcreteEnv if dimless == "conc" else Env
+    if uform:
+        form = _form_of(t, uform)
+        dims_of = lambda ctx, spec: group_dims_uform(ctx, spec, form)   # noqa: E731
+        EnvOf = lambda *a, **k: FormEnv(*a, form=form, **k)   # noqa: E731
 
     def h(ctx):
-        if dimless:
+        from symx.kernels import KernelModel
+        if history:
+            # an earlier call of the same function on ANOTHER DATASET: its own registry, the same unit names, other scales (numerals;
+            # the scales of the case proper are symbols, so "other" holds for all of them). Whatever the call leaves behind in the
+            # library - a memo keyed by the spelling of a unit, a cached unit object, a rule table - is there when the case runs
+            with ctx.warmup("h0!"):
+                try:
+                    reg0 = make_registry(ctx, t.groups, both=True)
+                    for run in ("A", "B"):
+                        call(t.fn, np, Env(ctx, "q", reg0, run))
+                except ctx.WarmAbort:
+                    pass
+                except (core.Unsupported, core.DomainExit):
+                    pass
+            del KernelModel.calls[:]
+        if uform:
+            reg = make_registry_uform(ctx, t.groups, form)
+        elif dimless:
             reg = make_registry_dimless(ctx, t.groups, concrete=(dimless == "conc"))
         else:
             reg = make_registry(ctx, t.groups, both=True)
-        from symx.kernels import KernelModel
         runs = []
         for run in ("A", "B"):
             E = EnvOf(ctx, "q", reg, run)
@@ -242,7 +465,13 @@ def make_case(t, dimless=False):
             ctx.observe("outcome", r1[0] + r2[0])
             return
         if t.tier == 2 and ctx.symbolic:
-            tier2_axioms(ctx, t, c1, c2)
+            if uform:
+                def factor_of(g, E=E2):
+                    f = E.factor(g)
+                    return f if (f is None or isinstance(f, core.SymReal)) else ctx.const_array([float(f)])[0]
+                tier2_axioms(ctx, t, c1, c2, factor_of=factor_of)
+            else:
+                tier2_axioms(ctx, t, c1, c2)
         f1, f2 = flatten(r1[1]), flatten(r2[1])
         compare(ctx, t, f1, f2, "result")
         oracle(ctx, t, f1, dims_of)
@@ -254,6 +483,10 @@ def make_case(t, dimless=False):
             ctx.observe("result2", numeric_obs(r2[1]))
 
     cid = {False: f"C07/{t.name}", "sym": f"C07/dimless/{t.name}", "conc": f"C07/dimless-dyadic/{t.name}"}[dimless]
+    if uform:
+        cid = f"C07/uform/{uform}/{t.name}"
+    if history:
+        cid = f"C07/rereg/{t.name}"
     return Case(cid, h, bounds="symbolic: every array element, bare scalar argument" + ("" if dimless == "conc" else ", unit scale and re-expression factor"),
                 weight=t.weight, max_paths=t.max_paths, budget_s=600.0, conform=t.conform, group=t.key)
 
@@ -744,6 +977,9 @@ def cases(tier, mods):
     # ---- identity of operands, spelling of option arguments (quick and thorough)
     for fam, ts in family_templates(tier, mods).items():
         out += [make_case(t) for t in ts]
+    # ---- compound operand units; the same call earlier on another dataset (quick and thorough)
+    out += [make_case(t, uform=f) for t, f in uform_templates(catalogue(tier), tier, mods)]
+    out += [make_case(t, history=True) for t in history_templates(catalogue(tier), tier, mods)]
     return out
 
 
@@ -756,6 +992,8 @@ def coverage_extra(results, tier):
     out["numpy_refuses_object_payload"] = dict(NUMPY_REFUSES)
     out["c07_only_templates"] = sorted(t.name for t in extra_templates(tier))
     out["identity_and_spelling_axes"] = {f: sum(1 for i in ids if i.startswith(f"C07/{f}/")) for f in ("alias", "flag-npbool", "flag-int", "arg-npscalar")}
+    out["compound_operand_units"] = {f: sum(1 for i in ids if i.startswith(f"C07/uform/{f}/")) for f in UFORMS}
+    out["history_same_call_on_another_registry"] = sum(1 for i in ids if i.startswith("C07/rereg/"))
     out["scaled_dimensionless"] = dict(
         templates_rerun_with_dimensionless_units=sum(1 for i in ids if i.startswith("C07/dimless")),
         of_which_with_concrete_dyadic_scales=sum(1 for i in ids if i.startswith("C07/dimless-dyadic/")),
